@@ -1799,6 +1799,7 @@ fn main() {
         run_timeout_s: 60,
         thorough_extra: None,
         warmup: Some(warmup),
+        enumerated: None,
     }];
     simcore::main_with(&sc);
 }
